@@ -38,6 +38,10 @@ use vproj::genp::GenOpts;
 use vproj::model::{ItemKind, Project};
 use vproj::toml::{Filelist, SrcMap, Target};
 
+/// Known finding: a file with several definitions is listed where its first
+/// definition falls in topological order.
+const ORDER_KNOWN: &str = "filelist/order:file-placed-at-its-first-definition";
+
 fn s(p: &Path) -> String {
     p.to_string_lossy().into_owned()
 }
@@ -76,9 +80,12 @@ fn file_item_names(p: &Project, rel: &str) -> Vec<String> {
             if !item.alive {
                 continue;
             }
+            // generic items are emitted once per instantiation; native `#[test]`
+            // modules are not emitted as SystemVerilog modules at all
             let generic = match &item.kind {
                 ItemKind::Package(k) => k.generic,
                 ItemKind::Module(m) => m.generic,
+                ItemKind::Test(_) => true,
                 _ => false,
             };
             if !generic {
@@ -158,6 +165,7 @@ fn one_case(d: &mut Draw, thorough: bool) -> Outcome {
         std_per_mille: 80,
         collide_per_mille: 40,
         ensure_wildcard: false,
+        single_def_per_mille: 850,
     };
     let p = gen_p2(d, &opts);
     let ws = Workspace::new("c25", &p.root.cfg.name);
@@ -361,6 +369,7 @@ fn one_case(d: &mut Draw, thorough: bool) -> Outcome {
                 }
             }
         }
+        let mut bad: Vec<(bool, String, FileId, FileId)> = vec![];
         for (a, b) in &edges {
             if is_example.get(a).copied().unwrap_or(false) {
                 continue;
@@ -372,10 +381,10 @@ fn one_case(d: &mut Draw, thorough: bool) -> Outcome {
                     nontrivial_edge = true;
                 }
                 if sb.1 >= sa.0 {
-                    return Outcome::fail(
-                        "bundle/order",
+                    bad.push((
+                        p.explained_by_first_definition(a, b),
                         format!(
-                            "{} references {}, but its definitions (from line {}) do not come after those of {} (up to line {}) in {}\nproject: {summary}",
+                            "{} references {}, but its definitions (from line {}) do not come after those of {} (up to line {}) in {}",
                             a.show(),
                             b.show(),
                             sa.0,
@@ -383,10 +392,19 @@ fn one_case(d: &mut Draw, thorough: bool) -> Outcome {
                             sb.1,
                             s(&bundle)
                         ),
-                        mk_input(json!({"bundle": text, "a": a.show(), "b": b.show()})),
-                    );
+                        a.clone(),
+                        b.clone(),
+                    ));
                 }
             }
+        }
+        bad.sort_by_key(|x| x.0);
+        if let Some((explained, msg, a, b)) = bad.first() {
+            return Outcome::fail(
+                if *explained { ORDER_KNOWN } else { "bundle/order" },
+                format!("{msg}\nproject: {summary}"),
+                mk_input(json!({"bundle": text, "a": a.show(), "b": b.show()})),
+            );
         }
     } else {
         // ---- one line per emitted file
@@ -443,6 +461,7 @@ fn one_case(d: &mut Draw, thorough: bool) -> Outcome {
                 );
             }
         }
+        let mut bad: Vec<(bool, String)> = vec![];
         for (a, b) in &edges {
             if is_example.get(a).copied().unwrap_or(false) {
                 continue;
@@ -464,8 +483,8 @@ fn one_case(d: &mut Draw, thorough: bool) -> Outcome {
                 }
             }
             if pb >= pa {
-                return fail(
-                    "filelist/order",
+                bad.push((
+                    p.explained_by_first_definition(a, b),
                     format!(
                         "{} references {} (acyclic), but line {} ({}) does not precede line {} ({})",
                         a.show(),
@@ -475,8 +494,12 @@ fn one_case(d: &mut Draw, thorough: bool) -> Outcome {
                         pa + 1,
                         s(&da)
                     ),
-                );
+                ));
             }
+        }
+        bad.sort_by_key(|x| x.0);
+        if let Some((explained, msg)) = bad.first() {
+            return fail(if *explained { ORDER_KNOWN } else { "filelist/order" }, msg.clone());
         }
     }
 
@@ -537,6 +560,7 @@ fn one_case(d: &mut Draw, thorough: bool) -> Outcome {
     if names.values().any(|n| *n > 1) {
         classes.insert("same_file_name_in_two_directories".into());
     }
+    classes.insert(if p.single_def { "one_definition_per_file" } else { "files_with_several_definitions" }.into());
     if p.excluded_collisions > 0 {
         classes.insert("known_collision_excluded_by_renaming".into());
     }
